@@ -203,6 +203,14 @@ class World:
                     p.connect(items, a)
                 elif op[1] == "rshift":
                     M(op[2][0]) >> items
+                elif op[1] == "mlist_rshift":
+                    # a ModuleList of this project that has come to hold a module of the other one (a chain result that was
+                    # appended to, or the result of `x >> [] >> [foreign, ...]`)
+                    ModuleList(p, items) >> M(op[2][0])
+                elif op[1] == "mlist_lshift":
+                    ModuleList(p, items) << M(op[2][0])
+                elif op[1] == "chain_empty":
+                    M(op[2][0]) >> [] >> items >> M(op[2][0])
                 else:
                     M(op[2][0]) << items
             except Exception as e:  # noqa: BLE001
